@@ -266,9 +266,12 @@ def parse_vspec(text: str, path: str) -> dict:
             for gl in t.split("\n"):
                 if gl.strip() and not re.match(r"^\s*let ghost [A-Za-z_][A-Za-z_0-9]*(\s*:[^=;]+)?\s*=[^;]*;\s*$", gl):
                     raise Undecided(f"{path}: @ghost accepts only `let ghost <name> = <path>;` lines, got {gl.strip()!r}")
-            if section[1] != "entry":
-                raise Undecided(f"{path}: @ghost supports only the anchor `entry`")
-            cur.ghosts.append(t)
+            if section[1] == "entry":
+                cur.ghosts.append(t)
+            elif section[1].startswith(("before ", "after ")):
+                cur.proofs.append((section[1], t, "raw"))   # snapshot in the middle of a body (e.g. the world before a call inside a loop)
+            else:
+                raise Undecided(f"{path}: @ghost supports only the anchors `entry`, `before \"..\"`, `after \"..\"`")
         buf = []
 
     for ln, line in enumerate(text.splitlines(), 1):
@@ -382,8 +385,9 @@ def splice_body(body: str, spec: FnSpec, n_loops: int, key: str, diverge_spec="e
         for text in spec.ghosts:
             i = body.index("{")
             body = body[:i + 1] + "\n" + text + body[i + 1:]
-        for anchor, text in spec.proofs:
-            block = "proof {\n" + text + "\n}"
+        for pitem in spec.proofs:
+            anchor, text = pitem[0], pitem[1]
+            block = text if len(pitem) > 2 else "proof {\n" + text + "\n}"
             if anchor == "entry":
                 i = body.index("{")
                 body = body[:i + 1] + "\n" + block + body[i + 1:]
